@@ -431,6 +431,10 @@ class Proofs(Driver):
         base = dict(txids=[t.hex() for t in txids], mask=mask)
         case = dict(base, corrupt=["none"])
         yield case, self.run(case)
+        if n <= 6:
+            for coin in ("LTC", "BCH"):
+                case = dict(base, corrupt=["none"], coin=coin)
+                yield case, self.run(case)
         for c in proof_corruptions(len(hashes), nbits, len(flags)):
             case = dict(base, corrupt=c)
             yield case, self.run(case)
@@ -479,7 +483,14 @@ class Proofs(Driver):
                 pass
         fields = dict(header=H, total_transactions=n, hashes=hashes, flags=flags)
         data = wire.ser_message("merkleblock", fields)
-        net = network("BTC")
+        # the proof is checked on the coin named in the case; the networks are always created in the same order so that the
+        # codec one network uses cannot depend on which networks exist (state shared between network objects)
+        for code in ("BTC", "LTC", "BCH", "BTG"):
+            try:
+                network(code)
+            except Exception:
+                pass
+        net = network(case.get("coin", "BTC"))
         odd = False
         w = n
         while w > 1:
@@ -492,6 +503,9 @@ class Proofs(Driver):
         try:
             d = net.message.parse("merkleblock", data)
             got = [bytes(h) for h in d["tx_hashes"]]
+            if type(d["header"]) is not net.block:
+                return BAD("wrong-header-class", "header parsed with this network's block class %s.%s" % (net.block.__module__, net.block.__name__),
+                           "%s.%s" % (type(d["header"]).__module__, type(d["header"]).__name__), clause="proof-header-class")
         except Exception as e:
             if kind == "none":
                 return BAD("honest-rejected", "accepted, matched ids %s" % [m.hex()[:8] for m in matched], exc(e), clause="proof-accept")
